@@ -1419,16 +1419,23 @@ mzd_t *mzd_stack(mzd_t *C, mzd_t const *A, mzd_t const *B) {
     m4ri_die("mzd_stack: C has wrong dimension!\n");
   }
 
+  /* only the bits inside the columns may be taken from the last word: a source that is a window
+     carries bits of its parent there, and C's own excess bits must stay what they are */
+  wi_t const wide     = A->width - 1;
+  word const mask_end = C->high_bitmask;
+
   for (rci_t i = 0; i < A->nrows; ++i) {
     word const *src_truerow = mzd_row_const(A, i);
     word *dst_truerow = mzd_row(C, i);
-    for (wi_t j = 0; j < A->width; ++j) { dst_truerow[j] = src_truerow[j]; }
+    for (wi_t j = 0; j < wide; ++j) { dst_truerow[j] = src_truerow[j]; }
+    dst_truerow[wide] = (dst_truerow[wide] & ~mask_end) | (src_truerow[wide] & mask_end);
   }
 
   for (rci_t i = 0; i < B->nrows; ++i) {
     word *dst_truerow = mzd_row(C, A->nrows + i);
     word const *src_truerow = mzd_row_const(B, i);
-    for (wi_t j = 0; j < B->width; ++j) { dst_truerow[j] = src_truerow[j]; }
+    for (wi_t j = 0; j < wide; ++j) { dst_truerow[j] = src_truerow[j]; }
+    dst_truerow[wide] = (dst_truerow[wide] & ~mask_end) | (src_truerow[wide] & mask_end);
   }
 
   __M4RI_DD_MZD(C);
